@@ -531,3 +531,15 @@ func ruleKindChangeReported(r *Run) {
 	r.check(ok, "storeLabelElements:kind-change-reported", "a replacement whose kind differs appends to delta.Del and delta.Add",
 		"the label view replaces an element at an existing position without telling the subscribers when its kind changed: label/<l> shows the new kind while the synced labelsz keeps counting the old one", w.fpos(f))
 }
+
+func init() {
+	register(ruleDef{ID: "R1.11", Prop: "C01", Tier: "quick", Floor: 2,
+		Title: "a range delete hides older values (shared with R5.4): DeleteRange writes a tombstone through the versioned batch for every live key, never a raw delete of the data key alone (which would unmask the ancestor's value)",
+		Fn:    ruleR5_4})
+	register(ruleDef{ID: "R1.12", Prop: "C01", Tier: "quick", Floor: 3,
+		Title: "range reads resolve through the ancestry like point reads (shared with R5.2): the versioned scanner starts at the minimum version key of the first datum, so inherited entries of the first key are seen",
+		Fn:    ruleR5_2})
+	register(ruleDef{ID: "R1.13", Prop: "C01", Tier: "quick", Floor: 10,
+		Title: "the DAG that reads are resolved against is the one a restart reloads (shared with R3.3): every change of a node's parents/children is followed by a save of the repo",
+		Fn:    ruleR3_3})
+}
